@@ -256,7 +256,7 @@ def r3_grid_coordinates(ctx):
                 spc = Q.arg(ctx, c, "spacing")
                 a1 = ("call", ("glob", "numpy.atleast_1d"), (("param", "spacing"),), (), 0)
                 wantk = 0 if scalar else j
-                ok = True if isinstance(spc, tuple) and canon(spc) == canon(Q.sub(a1, wantk)) else (False if isinstance(spc, tuple) and spc[0] == "sub" and is_const(spc[2]) else None)
+                ok = True if isinstance(spc, tuple) and canon(spc) == canon(Q.sub(a1, wantk)) else (False if isinstance(spc, tuple) and spc[0] == "sub" and is_const(spc[2]) and canon(spc[1]) == canon(a1) else None)
                 ctx.check("R3", "%s|%s-line-spacing|%s" % (qn, ax, tag), ok, "the %s line uses spacing[%d]" % (ax, wantk),
                           bad="the %s line uses %s" % (ax, show(spc) if isinstance(spc, tuple) else spc), fn=qn)
         # result structure
@@ -385,7 +385,8 @@ def r5_profile(ctx):
             need = Q.sub(("param", "point2"), k)
             if need not in odd and any(x == ("param", "point2") for c, _v in p.conds for x in walk(c)):
                 continue          # a branch selected by a test on the end points (zero-length segment, ...): judged by the formula comparison only
-            ctx.check("R5", "%s|direction-depends-on-sign-of-d%s|%s" % (qn, nm, tag), True if need in odd else False,
+            whole = ("param", "point2") in odd or any(x[0] == "call" and any(y == ("param", "point2") for y in x[2]) for x in walk(els[k]) if isinstance(x, tuple) and x and x[0] == "call")
+            ctx.check("R5", "%s|direction-depends-on-sign-of-d%s|%s" % (qn, nm, tag), True if need in odd else (None if whole else False),
                       "the %s of the profile depends on the sign of point2[%d] - point1[%d]" % (nm, k, k),
                       bad="the %s of the profile depends on point2[%d] only through even functions (distance): profiles towards decreasing %s are mirrored" % (nm, k, nm), fn=qn)
     ok = any(p.exit == "raise" and p.conds and p.conds[-1][0] in (("cmp", "<=", ("param", "size"), const(0)), ("cmp", "<", ("param", "size"), const(1))) and p.conds[-1][1] for p in ctx.paths(qn))
